@@ -12,9 +12,7 @@ import (
 	"github.com/taurusgroup/multi-party-sig/pkg/ecdsa"
 	"github.com/taurusgroup/multi-party-sig/pkg/math/curve"
 	"github.com/taurusgroup/multi-party-sig/pkg/math/polynomial"
-	"github.com/taurusgroup/multi-party-sig/pkg/paillier"
 	"github.com/taurusgroup/multi-party-sig/pkg/party"
-	"github.com/taurusgroup/multi-party-sig/pkg/pedersen"
 	"github.com/taurusgroup/multi-party-sig/pkg/protocol"
 	"github.com/taurusgroup/multi-party-sig/protocols/cmp"
 	"github.com/taurusgroup/multi-party-sig/protocols/doerner"
@@ -83,15 +81,6 @@ func decoders() ([]decoder, error) {
 	}
 	b, err = cbor.Marshal(ck["a"])
 	if e := add("cmp.Config(cbor)", b, err, 23, func(b []byte) error { return cbor.Unmarshal(b, cmp.EmptyConfig(g)) }); e != nil {
-		return nil, e
-	}
-	pub := ck["a"].Public["a"]
-	b, err = pub.Paillier.MarshalBinary()
-	if e := add("paillier.PublicKey", b, err, 3, func(b []byte) error { return new(paillier.PublicKey).UnmarshalBinary(b) }); e != nil {
-		return nil, e
-	}
-	b, err = cbor.Marshal(pub.Pedersen)
-	if e := add("pedersen.Parameters", b, err, 3, func(b []byte) error { return cbor.Unmarshal(b, &pedersen.Parameters{}) }); e != nil {
 		return nil, e
 	}
 	ps, err := kmat.CMPPresigs(2, 1)
